@@ -750,9 +750,16 @@ func runWrap(sc *Scenario, res *Result, keepLog bool) {
 		if differs && w.Kind != "shared-decoder" {
 			skipInnerType = true
 			typ := dials.NewType(ptrify.Pointerify(reflect.TypeOf(CfgWrap{}), reflect.ValueOf(CfgWrap{})))
-			if _, err := sourcewrap.NewTransformingSource(&wInner{id: 1, own: "Stamp"}, manglersFor(sib)...).Value(r.ctx, typ); err != nil {
-				panic(fmt.Sprint("harness: the sibling wrapper failed: ", err))
-			}
+			func() {
+				defer func() {
+					if x := recover(); x != nil {
+						r.fail("crash", "Value of a transforming source (manglers %v) over well-formed data panicked: %v", sib, x)
+					}
+				}()
+				if _, err := sourcewrap.NewTransformingSource(&wInner{id: 1, own: "Stamp"}, manglersFor(sib)...).Value(r.ctx, typ); err != nil {
+					r.fail("C20.initial", "Value of a transforming source (manglers %v) over well-formed data failed: %v", sib, err)
+				}
+			}()
 			skipInnerType = false
 			r.probes["sibling-wrapper-with-other-zero-size-manglers"]++
 		}
